@@ -92,7 +92,7 @@ class transformed_glyph_bounds:
         "well-formed": lambda result: isnone(result) or (result[0] <= result[2] and result[1] <= result[3]),
     }
     native = False
-    note = "control bounds of the named ufo glyph under `transform` (fontTools ControlBoundsPen/TransformPen); None iff the glyph draws nothing -- conformance-checked natively in the glyph harness"
+    note = "control bounds of the named ufo glyph under `transform` (fontTools ControlBoundsPen/TransformPen); None iff the glyph draws nothing -- conformance-checked natively by transformed_glyph_bounds_conformance below"
 
 
 SOLID = Record("nanoemoji.paint.PaintSolid", color=Record("nanoemoji.colors.Color"))
@@ -179,3 +179,72 @@ def _leaf_transforms_ok(color_glyph, calls):
     cs = calls.get("nanoemoji.write_font._transformed_glyph_bounds", [])
     want = [x for r in color_glyph.painted_layers for x in spec.leaves(r)]
     return [(c.args.glyph_name, spec.aff(c.args.transform)) for c in cs] == want
+
+
+# ---- native conformance of the assumed summary of _transformed_glyph_bounds ------------------
+
+
+def _gen_glyph_and_affine(rng, i=None):
+    import math
+
+    pts = [(rng.randint(-200, 900), rng.randint(-200, 900)) for _ in range(rng.randint(3, 6))]
+    kind = ["identity", "translate", "unit-diagonal", "scale", "rotate", "general", "flip", "unit-diagonal"][(i if i is not None else rng.randrange(8)) % 8]
+    e, f = rng.randint(-300, 300), rng.randint(-300, 300)
+    if kind == "identity":
+        m = (1, 0, 0, 1, 0, 0)
+    elif kind == "translate":
+        m = (1, 0, 0, 1, e, f)
+    elif kind == "unit-diagonal":
+        # a == d == 1 but not a translation (rotation by t scaled by 1/cos t, or a shear)
+        b = rng.choice([1, 0.5, -0.5, 0.25])
+        m = (1, b, rng.choice([-b, 0, b]), 1, e, f)
+    elif kind == "scale":
+        m = (rng.choice([0.5, 2, 1]), 0, 0, rng.choice([0.5, 1, 3]), e, f)
+    elif kind == "rotate":
+        t = math.radians(rng.choice([30, 45, 90, 200]))
+        m = (math.cos(t), math.sin(t), -math.sin(t), math.cos(t), e, f)
+    elif kind == "flip":
+        m = (-1, 0, 0, 1, e, f)
+    else:
+        m = (rng.uniform(-2, 2), rng.uniform(-2, 2), rng.uniform(-2, 2), rng.uniform(-2, 2), e, f)
+    return {"pts": pts, "m": m, "empty": rng.random() < 0.1}
+
+
+def _bounds_of_drawn_glyph(pts, m, empty):
+    import ufoLib2
+    from picosvg.svg_transform import Affine2D
+    from nanoemoji import write_font
+
+    ufo = ufoLib2.Font()
+    g = ufo.newGlyph("g")
+    if not empty:
+        pen = g.getPen()
+        pen.moveTo(pts[0])
+        for p in pts[1:]:
+            pen.lineTo(p)
+        pen.closePath()
+    return write_font._transformed_glyph_bounds(ufo, "g", Affine2D(*m))
+
+
+def _expected_bounds(pts, m, empty):
+    if empty:
+        return None
+    a, b, c, d, e, f = m
+    q = [(a * x + c * y + e, b * x + d * y + f) for x, y in pts]
+    return (min(p[0] for p in q), min(p[1] for p in q), max(p[0] for p in q), max(p[1] for p in q))
+
+
+@contract("nanoemoji.write_font._transformed_glyph_bounds", props=["C05", "C01"])
+class transformed_glyph_bounds_conformance:
+    """the summary assumed above, checked against an independent computation: the box of the
+    glyph's points mapped through the WHOLE affine (also when its diagonal is (1, 1))"""
+
+    bounded_only = True
+    gen = _gen_glyph_and_affine
+    native_call = _bounds_of_drawn_glyph
+    n_quick = 64
+    n_thorough = 2000
+    ensures = {
+        "box-of-the-transformed-outline": lambda pts, m, empty, result: (result is None) == (_expected_bounds(pts, m, empty) is None)
+        and (result is None or all(abs(u - v) <= 1e-6 * (1 + abs(v)) for u, v in zip(result, _expected_bounds(pts, m, empty)))),
+    }
